@@ -120,7 +120,15 @@ fn cq(x: &mut Exec) -> Res {
     x.timeout_used(Duration::from_millis(poll_ms));
     // the poller may leave the scope early: the final drain then has to do everything,
     // including meeting a panicked arm while others are still alive
-    let early_exit = if x.rng.chance(1, 2) { Some(x.rng.below(3)) } else { None };
+    let mut early_exit = if x.rng.chance(1, 2) { Some(x.rng.below(3)) } else { None };
+    // "forever" mode: polls without a timeout while another arm stays alive and silent after its events: only the
+    // wake-up that comes with the panicking arm's final event can end the scenario (a poll time-out would paper over
+    // a missing wake-up)
+    let forever = panic_arm.is_some() && arms >= 2 && x.rng.chance(1, 2);
+    let silent_arm = if forever { Some((panic_arm.unwrap() + 1) % arms) } else { None };
+    if forever {
+        early_exit = None;
+    }
     let err = Arc::new(std::sync::Mutex::new(None::<String>));
     let (e2, evs2) = (err.clone(), evs.clone());
     x.spawn("poller", poller_co, move |a| {
@@ -138,7 +146,7 @@ fn cq(x: &mut Exec) -> Res {
                     let n = evs2[arm];
                     let mut r = Rng::new(seeds[arm]);
                     let pa = panic_arm == Some(arm);
-                    let rm = remove_arm == Some(arm);
+                    let rm = remove_arm == Some(arm) || silent_arm == Some(arm);
                     let s = go!(cq, arm, move |es| {
                         struct End(Arc<AtomicUsize>);
                         impl Drop for End {
@@ -180,7 +188,7 @@ fn cq(x: &mut Exec) -> Res {
                     }
                     let t0 = Instant::now();
                     a.call("poll", polls);
-                    let r = cq.poll(Some(Duration::from_millis(poll_ms)));
+                    let r = cq.poll(if forever { None } else { Some(Duration::from_millis(poll_ms)) });
                     match r {
                         Ok(ev) => {
                             a.ret("poll", polls, ev.token as u64 * 100 + ev.extra as u64);
@@ -253,7 +261,7 @@ fn cq(x: &mut Exec) -> Res {
             *e = Some("cqueue scope returned while a select coroutine was still alive".into());
         }
     });
-    x.desc = format!("cqueue arms={} events={:?} panic_arm={:?} remove_arm={:?} poller_co={} poll={}ms early_exit_after={:?}", arms, evs, panic_arm, remove_arm, poller_co, poll_ms, early_exit);
+    x.desc = format!("cqueue arms={} events={:?} panic_arm={:?} remove_arm={:?} poller_co={} poll={}ms early_exit_after={:?} forever(silent arm)={:?}", arms, evs, panic_arm, remove_arm, poller_co, poll_ms, early_exit, silent_arm);
     x.wait_all()?;
     if let Some(e) = err.lock().unwrap().take() {
         return viol(format!("cqueue: {}", e));
